@@ -256,65 +256,78 @@ def composition_jobs(leaf_contracts):
         H = 56 * side
         PINOK = ' && '.join('(G_AG.pin[%d] == 64 || (G_AG.pin[%d] < 64 && G_AG.pin[%d] != %s && (($1->_by_color_bb[%d] >> G_AG.pin[%d]) & 1)))' % (r, r, r, KSQ, side, r) for r in range(8))
         c = ('__CPROVER_requires(wf_pos($1) && $1->_current_side == %d && __builtin_popcountll($1->_by_color_bb[%d] & $1->_by_piece_kind_bb[1]) <= 8)\n' % (side, side) +
+             '__CPROVER_requires(%s)\n' % ' && '.join('__builtin_popcountll($1->_by_color_bb[%d] & $1->_by_piece_kind_bb[%d]) <= 10' % (side, k) for k in (2, 3, 4, 5)) +
              '__CPROVER_requires(__CPROVER_same_object($2, g_lo) && __CPROVER_POINTER_OFFSET($2) == 0 && g_cap_bytes == 65536 && g_cnt >= 0 && g_cnt < 1000 && (G_M >> 17) == 0)\n'
              '__CPROVER_requires(G_F3 == %s && G_F1 == alg_castle_sq_a(%d, %s) && G_F2 == alg_castle_sq_b(%d, %s))\n' % (GT, side, GC, side, GC) +
              '__CPROVER_requires(%s)\n' % PINOK +
              '__CPROVER_requires(G_AG.checkers == 0 || LINES[%s][alg_lsb(G_AG.checkers)] == G_AG.seg)\n' % KSQ +
              '__CPROVER_assigns(g_cnt, __CPROVER_object_whole(PINS))\n'
              '__CPROVER_ensures(g_cnt == __CPROVER_old(g_cnt) + spec_alg_core_pos($1, %d, G_M))\n' % side)
-        lc = {}
-        for i, (var, k) in enumerate((('not_pinned_knights', 2), ('not_pinned_bishops', 3), ('not_pinned_rooks', 4), ('not_pinned_queens', 5))):
-            lc[(fn, i + 1)] = ['__CPROVER_assigns(%s, list, g_cnt)' % var,
-                               '__CPROVER_loop_invariant((%s & ~__CPROVER_loop_entry(%s)) == 0)' % (var, var),
-                               '__CPROVER_loop_invariant(__CPROVER_same_object(list, g_lo) && __CPROVER_POINTER_OFFSET(list) >= __CPROVER_POINTER_OFFSET(__CPROVER_loop_entry(list)) && '
-                               '__CPROVER_POINTER_OFFSET(list) <= __CPROVER_POINTER_OFFSET(__CPROVER_loop_entry(list)) + 112 * __builtin_popcountll(__CPROVER_loop_entry(%s) & ~%s))' % (var, var),
-                               '__CPROVER_loop_invariant(g_cnt == __CPROVER_loop_entry(g_cnt) + (((((__CPROVER_loop_entry(%s) & ~%s) >> %s) & 1) && %s && (((G_AG.att[%d] & target) >> %s) & 1)) ? 1 : 0))' % (var, var, GF, PLAIN, k, GT),
-                               '__CPROVER_decreases(%s)' % var]
-        h = ND + ('AlgGhost nondet_AlgGhost(void);\n' + ALGPOS +
-                  'void h_gl(void) {\n'
-                  '  verif_restore_statics();\n'
-                  '  CASTLING_PATHS[1] = 0x60ULL; CASTLING_PATHS[2] = 0x0CULL; CASTLING_PATHS[4] = 0x6000000000000000ULL; CASTLING_PATHS[8] = 0x0C00000000000000ULL;   /* C11: geom/rays_masks */\n'
-                  '  struct Position P = nondet_Position(); W_P = P;\n'
-                  '  uint32_t *BUF = malloc(65536); __CPROVER_assume(BUF != 0);   /* the move list: never read or written here (stores are projected to the capacity assertion) */\n'
-                  '  g_lo = BUF; g_cap_bytes = 65536; G_M = nondet_u32(); g_cnt = nondet_int(); W_m = G_M; G_AG = nondet_AlgGhost();\n'
-                  '  G_F1 = nondet_u32(); G_F2 = nondet_u32(); G_F3 = nondet_u32();\n'
-                  '  %s(&P, BUF);' % fn + CANARY + '}\n')
-        stubs = [k for k in leafs if '__CPROVER_assigns()' not in cs[k]]     # leaves that write (ghost counter, pin records): stub form, see tools/cxx2c.py stub_text
-        out.append(Job('compose/generate_legal_moves_' + sn, MTUS, [fn], h, 'h_gl', contracts=dict(cs, **{fn: c}), nobody=leafs, loopc=lc, enforce=fn, replace=leafs, stubs=stubs,
-                       loop_contracts=True, hooks=HOOKS, spec=['poswf_decl.h', 'movegen.h'], post_spec=['poswf.h'], pre_text=COMPOSE_PRE, force_globals=['PINS'],
-                       unwindset=loops_unwind([(fn, 9)]), timeout=3000, expect=['loop_invariant_step'],
-                       route='loop contracts on the four piece loops; pin loop closed-by-complete-unwinding(9): at most 8 pins',
-                       note='generate_legal_moves<%s> emits exactly the moves of the mask-glue predicate spec_alg_core, each once, for every value of the geometric sub-queries the leaf contracts allow - every leaf generator by contract' % sn))
+        for ci, cname in enumerate(CCLASS):
+            h = ND + ('AlgGhost nondet_AlgGhost(void);\n' + ALGPOS +
+                      'void h_gl(void) {\n'
+                      '  verif_restore_statics();\n'
+                      '  CASTLING_PATHS[1] = 0x60ULL; CASTLING_PATHS[2] = 0x0CULL; CASTLING_PATHS[4] = 0x6000000000000000ULL; CASTLING_PATHS[8] = 0x0C00000000000000ULL;   /* C11: geom/rays_masks */\n'
+                      '  struct Position P = nondet_Position(); W_P = P;\n'
+                      '  uint32_t *BUF = malloc(65536); __CPROVER_assume(BUF != 0);   /* the move list: never read or written here (stores are projected to the capacity assertion) */\n'
+                      '  g_lo = BUF; g_cap_bytes = 65536; G_M = nondet_u32(); g_cnt = nondet_int(); W_m = G_M; G_AG = nondet_AlgGhost();\n'
+                      '  G_F1 = nondet_u32(); G_F2 = nondet_u32(); G_F3 = nondet_u32();\n'
+                      '  __CPROVER_assume(compose_class(&P, %d, G_M) == %d);   /* case split on the ghost move: %s */\n' % (side, ci, cname) +
+                      '  %s(&P, BUF);' % fn + CANARY + '}\n')
+            stubs = [k for k in leafs if '__CPROVER_assigns()' not in cs[k]]     # leaves that write (ghost counter, pin records): stub form, see tools/cxx2c.py stub_text
+            out.append(Job('compose/generate_legal_moves_%s/%s' % (sn, cname), MTUS, [fn], h, 'h_gl', contracts=dict(cs, **{fn: c}), nobody=leafs, enforce=fn, replace=leafs, stubs=stubs,
+                           hooks=HOOKS, spec=['poswf_decl.h', 'movegen.h'], post_spec=['poswf.h'], pre_text=COMPOSE_PRE, force_globals=['PINS'],
+                           unwindset=loops_unwind([(fn, 11)]), timeout=3000, canary=(cname == 'king'),
+                           route='closed-by-complete-unwinding(11): at most 10 pieces of a kind (piece-list capacity, precondition), at most 8 pins',
+                           note='generate_legal_moves<%s> emits exactly the moves of the mask-glue predicate spec_alg_core, each once, for every value of the geometric sub-queries the leaf contracts allow - every leaf generator by contract; ghost move class: %s' % (sn, cname)))
     # assembly: for a well-formed Position and its mailbox abstraction, the square sets read off the bitboards are the sets of the board, the true values of
     # the sub-queries satisfy what the composition assumes of its ghosts, and LINES holds the segment the composition assumes - hence
     # composition[G := true values] gives  engine == spec_alg_count(abstraction, m)
     h = ND + ('SPos nondet_SPos(void);\n' + ALGPOS +
               'void h_as(void) {\n'
               '  struct Position P = nondet_Position(); uint32_t m = nondet_u32(); SPos S0; __CPROVER_assume(wf_pos(&P)); sp_of(&P, &S0);\n'
-              '  AlgSets A, B; spec_alg_sets(&S0, &B); alg_sets_of_pos(&P, P._current_side, &A);\n'
+              '  AlgSets A = alg_sets_of_pos(&P, P._current_side), B = spec_alg_sets(&S0);\n'
               '  __CPROVER_assert(A.own == B.own && A.enemy == B.enemy && A.k == B.k && A.side == B.side && A.rights == B.rights && A.ep == B.ep, "sets read off the bitboards == sets of the mailbox board (colours, king square, state)");\n'
               '  __CPROVER_assert(A.kind[1] == B.kind[1] && A.kind[2] == B.kind[2] && A.kind[3] == B.kind[3] && A.kind[4] == B.kind[4] && A.kind[5] == B.kind[5] && A.kind[6] == B.kind[6], "sets read off the bitboards == sets of the mailbox board (kinds)");\n'
-              '  AlgGhost T; spec_alg_true_ghost(&A, m, &T);\n'
+              '  AlgGhost T = spec_alg_true_ghost(A, m);\n'
               '  for (int r = 0; r < 8; r++) __CPROVER_assert(T.pin[r] == 64 || (T.pin[r] < 64 && T.pin[r] != A.k && ((A.own >> T.pin[r]) & 1)), "true pinned square: none, or an own piece other than the king");\n'
               '  __CPROVER_assert(A.k < 64, "the king square read from the piece list is on the board");' + CANARY + '}\n')
     out.append(Job('compose/assembly', MTUS, ['checkers_0'], h, 'h_as', spec=['poswf_decl.h', 'pos.h', 'movegen.h'], post_spec=['poswf.h'], timeout=1800,
                    note='assembly lemma: bitboard sets == mailbox sets for well-formed positions; the true geometric values satisfy the typing facts the composition assumes of its ghosts'))
+    # the unwinding bound of the piece loops: a well-formed piece list (capacity 10, in bijection with its bitboard) bounds the population of the bitboard
+    h = ND + ('void h_cap(void) {\n  struct Position P = nondet_Position(); uint32_t pc = nondet_u32(); __CPROVER_assume(pc >= 1 && pc <= 12 && wf_row(&P, pc));\n'
+              '  __CPROVER_assert(__builtin_popcountll(wf_bb(&P, pc)) <= 10, "a well-formed piece list has at most 10 entries, hence its bitboard at most 10 squares");' + CANARY + '}\n')
+    out.append(Job('compose/list_capacity', MTUS, ['checkers_0'], h, 'h_cap', spec=['poswf_decl.h', 'pos.h'], post_spec=['poswf.h'], timeout=2400, backend='cadical',
+                   note='lemma: wf_row bounds the population of the piece bitboard by the list capacity (discharges the popcount preconditions of the composition for well-formed positions)'))
     return out
 
 
+CCLASS = ['castling', 'king', 'pawn', 'knight', 'bishop', 'rook', 'queen', 'other']
 COMPOSE_PRE = EMIT_PRE + ('#define HAVE_G_AG 1\nuint32_t G_F1, G_F2, G_F3; AlgGhost G_AG; struct Position W_P; uint32_t W_m;\n'
                           'static inline uint32_t sp_kind8(uint32_t pc) { return pc == 0 ? 0u : (pc - 1u) % 6u + 1u; }\n'
                           'struct Position; int spec_alg_core_pos(const struct Position *p, uint32_t side, uint32_t m);\n')
 # the square sets of spec_alg_core read off the engine's bitboards (needs struct Position: placed in the harness text)
 ALGPOS = r"""
-void alg_sets_of_pos(const struct Position *p, uint32_t side, AlgSets *S)
+AlgSets alg_sets_of_pos(const struct Position *p, uint32_t side)
 {
-  S->own = p->_by_color_bb[side & 1]; S->enemy = p->_by_color_bb[1 - (side & 1)];
-  S->kind[0] = 0; for (uint32_t k = 1; k <= 6; k++) S->kind[k] = p->_by_piece_kind_bb[k];
-  S->k = p->_piece_position[6 + 6 * (side & 1)][0]; S->side = side; S->rights = p->_castling_rights; S->ep = p->_enpassant_square;
+  AlgSets S;
+  S.own = p->_by_color_bb[side & 1]; S.enemy = p->_by_color_bb[1 - (side & 1)];
+  S.kind[0] = 0; for (uint32_t k = 1; k <= 6; k++) S.kind[k] = p->_by_piece_kind_bb[k];
+  S.k = p->_piece_position[6 + 6 * (side & 1)][0]; S.side = side; S.rights = p->_castling_rights; S.ep = p->_enpassant_square;
+  return S;
+}
+/* case split of the composition proof on the ghost move: 0 castling code set, 1 from the king square, 2..6 from an own pawn / knight / bishop / rook / queen, 7 anything else */
+uint32_t compose_class(const struct Position *p, uint32_t side, uint32_t m)
+{
+  if (spec_move_ccode(m) != 0) return 0;
+  AlgSets S = alg_sets_of_pos(p, side); uint32_t f = spec_move_from(m);
+  if (f == S.k) return 1;
+  uint32_t kd = alg_kind_at(S, f);
+  if (((S.own >> f) & 1) && kd >= 1 && kd <= 5) return kd + 1;
+  return 7;
 }
 #ifdef HAVE_G_AG
-int spec_alg_core_pos(const struct Position *p, uint32_t side, uint32_t m) { AlgSets S; alg_sets_of_pos(p, side, &S); return spec_alg_core(&S, &G_AG, m); }
+int spec_alg_core_pos(const struct Position *p, uint32_t side, uint32_t m) { return spec_alg_core(alg_sets_of_pos(p, side), G_AG, m); }
 #endif
 """
 
